@@ -618,3 +618,23 @@ def gen_cascade(sc, mac):
     with open(path23, "w") as f:
         f.write(head + txt[i2:])
     return (path1, path23), groups, sig
+
+
+# --------------------------------------------------------------------------- catalogues (C15)
+
+def gen_catalog_spec(sc):
+    """gen/spec_catalog.h: the published index macros of the NIST and radionuclide catalogues, in value order"""
+    d = sc.gen_dir()
+    nist = parse_defines(os.path.join(sc.inc, "xraylib-nist-compounds.h"), r"^NIST_COMPOUND_")
+    nuc = parse_defines(os.path.join(sc.inc, "xraylib-radionuclides.h"), r"^RADIO_NUCLIDE_")
+    out = ["/* generated from include/xraylib-nist-compounds.h and include/xraylib-radionuclides.h */"]
+    for tag, lst, pre in (("NIST", nist, "NIST_COMPOUND_"), ("NUCLIDE", nuc, "RADIO_NUCLIDE_")):
+        vals = sorted(v for _, v in lst)
+        if not lst or vals != list(range(len(lst))):
+            raise Undecided("%s index macros are not a permutation of 0..N-1" % tag)
+        byv = dict((v, n) for n, v in lst)
+        out.append("#define SPEC_N%s %d" % (tag, len(lst)))
+        out.append("static const char *const SPEC_%s_MACRO[%d] = {%s};" % (tag, len(lst), ", ".join('"%s"' % byv[i][len(pre):] for i in range(len(lst)))))
+    with open(os.path.join(d, "spec_catalog.h"), "w") as f:
+        f.write("\n".join(out) + "\n")
+    return len(nist), len(nuc)
